@@ -450,12 +450,46 @@ VARIANTS = [
                 "new": "        MsgType.MVT_IP_ADDR: _IP_PAIR,\n        MsgType.MVT_IP_PORT"},
                {"file": PACK, "old": "        MsgType.MVT_IP_ADDR: (socket.inet_ntoa, socket.inet_aton),\n        # LLSD ints",
                 "new": "        MsgType.MVT_IP_ADDR: _IP_PAIR,\n        # LLSD ints"}]},
-    {"name": "P9 binary dates returned naive UTC (the fix the rule asks for)", "file": LLSD, "expect": "silent",
-     "old": "return datetime.datetime.fromtimestamp(seconds, tz=datetime.timezone.utc)",
-     "new": "return datetime.datetime.fromtimestamp(seconds, tz=datetime.timezone.utc).replace(tzinfo=None)"},
+    {"name": "R9 binary dates tz-aware again (D47 reverted)", "file": LLSD, "expect": "C12.R9",
+     "old": "return datetime.datetime.fromtimestamp(seconds, tz=datetime.timezone.utc).replace(tzinfo=None)",
+     "new": "return datetime.datetime.fromtimestamp(seconds, tz=datetime.timezone.utc)"},
+    {"name": "R9 binary dates re-labelled as UTC after the naive conversion", "file": LLSD, "expect": "C12.R9",
+     "old": "return datetime.datetime.fromtimestamp(seconds, tz=datetime.timezone.utc).replace(tzinfo=None)",
+     "new": "return datetime.datetime.utcfromtimestamp(seconds).replace(tzinfo=datetime.timezone.utc)"},
     {"name": "P9 binary dates through utcfromtimestamp", "file": LLSD, "expect": "silent",
-     "old": "return datetime.datetime.fromtimestamp(seconds, tz=datetime.timezone.utc)",
+     "old": "return datetime.datetime.fromtimestamp(seconds, tz=datetime.timezone.utc).replace(tzinfo=None)",
      "new": "return datetime.datetime.utcfromtimestamp(seconds)"},
+    {"name": "P9 naive UTC built from the epoch plus a timedelta", "file": LLSD, "expect": "silent",
+     "old": "return datetime.datetime.fromtimestamp(seconds, tz=datetime.timezone.utc).replace(tzinfo=None)",
+     "new": "return datetime.datetime(1970, 1, 1) + datetime.timedelta(seconds=seconds)"},
+    # ------------------------------------------------------------------ audit round (anchored on the FIXED text)
+    {"name": "R10 carriage-return escaping removed from the XML formatter (fix reverted)", "file": LLSD, "expect": "C12.R10",
+     "old": "        # XML parsers normalize a literal CR (or CRLF) to LF, only a character reference survives\n"
+            "        return super().xml_esc(v).replace(b\"\\r\", b\"&#13;\")\n",
+     "new": "        return super().xml_esc(v)\n"},
+    {"name": "R10 pretty XML formatter escapes line feeds instead", "file": LLSD, "expect": "C12.R10",
+     "old": "        # See HippoLLSDXMLFormatter.xml_esc()\n        return super().xml_esc(v).replace(b\"\\r\", b\"&#13;\")\n",
+     "new": "        # See HippoLLSDXMLFormatter.xml_esc()\n        return super().xml_esc(v).replace(b\"\\n\", b\"&#10;\")\n"},
+    {"name": "P10 carriage return written as a hexadecimal character reference", "file": LLSD, "expect": "silent",
+     "old": "        # XML parsers normalize a literal CR (or CRLF) to LF, only a character reference survives\n"
+            "        return super().xml_esc(v).replace(b\"\\r\", b\"&#13;\")\n",
+     "new": "        escaped = super().xml_esc(v)\n        return escaped.replace(b\"\\r\", b\"&#xD;\") if False else "
+            "super().xml_esc(v).replace(b\"\\r\", b\"&#xD;\")\n"},
+    {"name": "R6 JankStringyBytes no longer registered as binary (fix reverted)", "file": LLSD, "expect": "C12.R6",
+     "old": "        self.type_map[JankStringyBytes] = self.BINARY\n", "new": ""},
+    {"name": "R6 RawBytes registered with the string handler", "file": LLSD, "expect": "C12.R6",
+     "old": "        self.type_map[RawBytes] = self.BINARY\n", "new": "        self.type_map[RawBytes] = self.STRING\n"},
+    {"name": "P6 bytes subclasses registered in a loop", "file": LLSD, "expect": "silent",
+     "old": "        self.type_map[JankStringyBytes] = self.BINARY\n        self.type_map[RawBytes] = self.BINARY\n",
+     "new": "        for bytes_cls in (JankStringyBytes, RawBytes):\n            self.type_map[bytes_cls] = self.BINARY\n"},
+    {"name": "R9 aware datetimes no longer normalised by the formatters (fix reverted)", "file": LLSD, "expect": "C12.R9",
+     "old": "        self.type_map[datetime.datetime] = self.DATETIME\n", "new": ""},
+    {"name": "R9 DATETIME handler forgets to strip the tzinfo", "file": LLSD, "expect": "C12.R9",
+     "old": "            v = v.astimezone(datetime.timezone.utc).replace(tzinfo=None)\n",
+     "new": "            v = v.astimezone(datetime.timezone.utc)\n"},
+    {"name": "P9 DATETIME handler normalises through utctimetuple", "file": LLSD, "expect": "silent",
+     "old": "            v = v.astimezone(datetime.timezone.utc).replace(tzinfo=None)\n",
+     "new": "            v = datetime.datetime(*v.utctimetuple()[:6], v.microsecond)\n"},
     # ------------------------------------------------------------------ documented limits
     {"name": "X quaternion packed with two components (count still accepted by the constructor)", "file": PACK, "expect": "miss",
      "old": "MsgType.MVT_LLQuaternion: _make_llsd_tuplecoord_spec(Quaternion, needed_elems=3)",
